@@ -5,3 +5,4 @@ cd "$(dirname "$0")"
 export CARGO_NET_OFFLINE=true
 (cd factgen && cargo +nightly build --offline)
 python3 -m vlib.gen ws
+python3 -m vlib.gen lib-full
